@@ -14,6 +14,7 @@ import (
 	"unicode/utf8"
 
 	netty "github.com/go-netty/go-netty"
+	"github.com/go-netty/go-netty/codec"
 	"github.com/go-netty/go-netty/codec/format"
 	"github.com/go-netty/go-netty/codec/frame"
 )
@@ -261,11 +262,18 @@ var malformed = []string{"", " ", "null", " null ", "true", "false", "0", "12", 
 
 func runC16(seed int64, count int) {
 	rng := rand.New(rand.NewSource(seed))
+	// one codec instance per configuration serves every frame of the run, as one instance serves every frame of a
+	// connection (a codec that keeps anything from one frame to the next shows up in the later frames)
+	codecs := map[[2]bool]codec.Codec{}
 	for i := 0; i < count; i++ {
 		emit("#case C16-%d-k%d", i, i%5)
 		useNumber := rng.Intn(4) != 0
 		disallow := rng.Intn(2) == 0
-		c := format.JSONCodec(useNumber, disallow)
+		c := codecs[[2]bool{useNumber, disallow}]
+		if c == nil || rng.Intn(50) == 0 {
+			c = format.JSONCodec(useNumber, disallow)
+			codecs[[2]bool{useNumber, disallow}] = c
+		}
 		un := b2i(useNumber)
 		switch i % 5 {
 		case 0: // encoder against the model, then the implementation's own round trip (optionally through a frame codec)
